@@ -99,7 +99,7 @@ class MongoDriver(BaseDriver):
 
         db_filt = self._filt_to_db(filt)
 
-        return self._db[collection].update_many(db_filt, {'$set': record_part}, upsert=False).modified_count
+        return self._db[collection].update_many(db_filt, {'$set': record_part}, upsert=False).matched_count
 
     async def replace(self, collection: str, id_: Id, record: Record) -> bool:
         record = dict(record)
